@@ -93,8 +93,13 @@ func insertFences(repo string) error {
 	// capture fences: a yield before every "<x>.Mu.Lock()" statement in the forked
 	// server (the locks around the captured fingerprint data), so that the controller
 	// can run a handler between two critical sections of one frame's capture
-	if err := insertLockFences(filepath.Join(repo, "pkg/http2/server.go")); err != nil {
+	if err := insertLockFences(filepath.Join(repo, "pkg/http2/server.go"), "Lock", "verifYieldCapture"); err != nil {
 		missing = append(missing, "capture locks: "+err.Error())
+	}
+	// read fences: a yield before every "<x>.Mu.RLock()" of the metadata package (a handler
+	// formatting the fingerprint), so that frames can be processed between two read sections
+	if err := insertLockFences(filepath.Join(repo, "pkg/metadata/http2.go"), "RLock", "verifYieldRead"); err != nil {
+		missing = append(missing, "fingerprint read locks: "+err.Error())
 	}
 	// hand-over fences: around the hand-over of a connection to the HTTP/1.1 server
 	if err := insertHandoverFences(filepath.Join(repo, "pkg/proxyserver/proxyserver.go")); err != nil {
@@ -110,7 +115,7 @@ func insertFences(repo string) error {
 	return nil
 }
 
-func insertLockFences(path string) error {
+func insertLockFences(path, method, hook string) error {
 	fset := token.NewFileSet()
 	f, err := parser.ParseFile(fset, path, nil, parser.ParseComments)
 	if err != nil {
@@ -127,7 +132,7 @@ func insertLockFences(path string) error {
 			return false
 		}
 		sel, ok := call.Fun.(*ast.SelectorExpr)
-		if !ok || sel.Sel.Name != "Lock" {
+		if !ok || sel.Sel.Name != method {
 			return false
 		}
 		inner, ok := sel.X.(*ast.SelectorExpr)
@@ -138,7 +143,7 @@ func insertLockFences(path string) error {
 		var out []ast.Stmt
 		for _, st := range list {
 			if isMuLock(st) {
-				out = append(out, &ast.ExprStmt{X: &ast.CallExpr{Fun: ast.NewIdent("verifYieldCapture")}})
+				out = append(out, &ast.ExprStmt{X: &ast.CallExpr{Fun: ast.NewIdent(hook)}})
 				n++
 			}
 			out = append(out, st)
@@ -157,7 +162,7 @@ func insertLockFences(path string) error {
 		return true
 	})
 	if n == 0 {
-		return fmt.Errorf("no Mu.Lock() statement found")
+		return fmt.Errorf("no Mu.%s() statement found", method)
 	}
 	var sb strings.Builder
 	if err := format.Node(&sb, fset, f); err != nil {
